@@ -918,6 +918,23 @@ def oracle_C05(case):
                          '%d pieces; piece %d = %s' % (len(pieces), i, _clip(repr(pieces[i:i + 1]), 200)),
                          '%d pieces; piece %d = %s' % (len(units), i, _clip(repr(units[i:i + 1]), 200)))
         return None
+    if kind == 'longregion':
+        # "opaque regions never split", however long the region is: one statement whose string / quoted name / comment /
+        # dollar-quoted body has n characters with ';' all over it, followed by a second statement
+        _, rk, n = case
+        op, cl = {'sq': ("'", "'"), 'dq': ('"', '"'), 'mlc': ('/*', '*/'), 'dollar': ('$$', '$$'), 'bt': ('`', '`')}[rk]
+        unit = 'ab; c\nd ;'
+        body = unit * (n // len(unit) + 1)
+        first = 'select ' + op + body + cl + ' from t;'
+        text = first + ' select 2;'
+        try:
+            pieces = sqlparse.split(text)
+        except Exception as e:   # noqa: BLE001
+            return None if _is_parse_error(e) else _exc(e, _clip(text), 'split')
+        if pieces != [first, 'select 2;']:
+            return _fail('long-region-split', ('longregion', rk, n), '%d pieces; first = %s' % (len(pieces), _clip(repr(pieces[:1]), 120)),
+                         '2 pieces: the statement with the %d-character region, then select 2;' % len(body))
+        return None
     if kind == 'plain':
         _, script, cores = case
         k = len(cores)
@@ -983,6 +1000,9 @@ def cases_C05(tier, seed):
     for n in ((5000, 70000, 140000) if quick else (5000, 9000, 17000, 33000, 70000, 140000, 300000, 1100000)):
         for form in ('str', 'stream'):
             yield ('big', n, form)
+    for rk in ('sq', 'dq', 'mlc', 'dollar', 'bt'):
+        for n in ((70000, 300000) if quick else (70000, 140000, 300000, 1200000)):
+            yield ('longregion', rk, n)
     # region cases: hand-picked bodies x templates (exhaustive part)
     for rk, (op, cl, value_like) in REGION_KINDS.items():
         templates = _TEMPLATES_VALUE if value_like else _TEMPLATES_COMMENT
@@ -1431,6 +1451,16 @@ def cases_C14(tier, seed):
     for w in _c14_words() + C14_NON_WORDS:
         for casing in C14_CASINGS:
             yield ('word', w, casing, None, None)
+    # "whatever characters the body contains": a backslash in a quoted body.  The rules read a backslash in front of a quote
+    # as an escape when that lets them go on, so such a region is one token as long as no further quote of its kind follows:
+    # contexts without a quote only, bodies without a quote (a backslash next to a doubled quote is read as an escaped quote
+    # plus a closing quote: the escape convention the rules implement, outside the statement as drawn here)
+    for kind in ('sq', 'dq', 'bt'):
+        op, cl, _ = C14_KINDS[kind]
+        for body in ('\\', 'a\\', '\\a', 'C:\\temp\\', '\\\\', 'a\\b', ' \\', '\\ ', '\\n', 'x\\\\y\\'):
+            for left in ('', ' ', '(', '=', ','):
+                for right in ('', ' ', ')', ';', '\n', ' x', ', y'):
+                    yield ('region', kind, left, body, right)
     for kind in C14_KINDS:
         letters = _c14_letters(kind, domain.ALPHABET)
         for k in range(0, 3):
